@@ -79,6 +79,11 @@ DashSubpath(sp, A, off, K) ==
   IN IF L = 0 THEN <<>>
      ELSE IF allOn THEN <<[pts |-> Scale(IF closed THEN SubSeq(q, 1, Len(q) - 1) ELSE q), closed |-> closed]>>
      ELSE Pcs(normal) \o (IF wrap THEN <<wrapped>> ELSE <<>>)
+\* cut points are exact only if K is a multiple of the denominator of every segment's unit direction
+\* (5 for a 3-4-5 segment, 13 for 5-12-13, 1 for an axis-parallel one), the closing segment included
+SegKOK(a, b, K) == LET l == SegLen(a, b)  g == GCD(GCD(Abs(b[1] - a[1]), Abs(b[2] - a[2])), l)
+                   IN l = 0 \/ K % (l \div g) = 0
+SubpathKOK(sp, K) == LET q == Outline(sp) IN \A j \in 1..(Len(q) - 1) : SegKOK(q[j], q[j + 1], K)
 RECURSIVE DashAll(_, _, _, _, _)
 DashAll(sps, i, A, off, K) == IF i > Len(sps) THEN <<>> ELSE DashSubpath(sps[i], A, off, K) \o DashAll(sps, i + 1, A, off, K)
 \* no positive total: the stroke is disabled
